@@ -5,8 +5,8 @@
    contract (only wire_names change, to a permutation of the device nodes) changes no operator;
    composition theorem pipeline_ok: passes meeting their contracts (router: C09 routing_ok,
    unroller: C10 table) yield a circuit accepted by the specification of is_satisfied and equal to
-   the padded input read through the final layout; asserts_sound; the faithful model of
-   assert_connectivity is refuted on two-qubit measurements (is_satisfied_meas2_refuted).
+   the padded input read through the final layout; asserts_sound; is_satisfied_sound /
+   is_satisfied_complete (the acceptance check coincides with its specification).
 2. per run, on the real code (every pass of the real Passes.__call__ is observed by wrapping the
    pass classes' __call__ at run time): Preprocessing / placer / router / unroller contracts are
    CHECKED on every real pass execution; Preprocessing and is_satisfied are compared with the Coq
@@ -433,7 +433,7 @@ def make_cases(tier, rng):
                         a, b = rng.sample(range(k), 2)
                         gs.insert(rng.randrange(len(gs) + 1), ["CZ", [a, b], {}])
                 if rng.random() < 0.7:
-                    gs += gen_trailing_nonadjacent_safe(rng, k)
+                    gs += R.gen_trailing(rng, k)
                 spec = dict(nodes=nodes, edges=[list(e) for e in g.edges()], on_qubits=on, k=k, wire_names=wn, gates=gs,
                             pipeline={"pre": True, "placer": placer, "router": router, "natives": natn})
                 cases.append((devname, spec))
@@ -448,11 +448,17 @@ def defect_cases(rng):
                 gates=[["CZ", [0, 1], {}], ["M", [0, 2], {"register_name": "r"}]],
                 pipeline={"pre": True, "placer": None, "router": ["Sabre", {"seed": 0}], "natives": "default"})
     out.append(("line3", spec))
-    # ShortestPaths on a long line (C09 known defect, seen through the pipeline)
-    spec = dict(nodes=list(range(5)), edges=[[i, i + 1] for i in range(4)], on_qubits=None, k=5, wire_names=list(range(5)),
-                gates=[["CZ", [0, 4], {}], ["M", [0], {}]],
-                pipeline={"pre": True, "placer": None, "router": ["ShortestPaths", {"seed": 0}], "natives": "default"})
-    out.append(("line5", spec))
+    # regression: three-qubit measurement after a two-qubit gate needing a SWAP, star router
+    spec = dict(nodes=[0, 1, 2, 3, 4], edges=[[0, 1], [0, 2], [0, 3], [0, 4]], on_qubits=None, k=5, wire_names=[0, 1, 2, 3, 4],
+                gates=[["CZ", [1, 2], {}], ["M", [0, 1, 2], {"register_name": "r"}]],
+                pipeline={"pre": True, "placer": None, "router": ["StarConnectivityRouter", {}], "natives": "default"})
+    out.append(("star5", spec))
+    # regression: ShortestPaths on a long line (qubit moves more than one step)
+    for sd in range(4):
+        spec = dict(nodes=list(range(6)), edges=[[i, i + 1] for i in range(5)], on_qubits=None, k=6, wire_names=list(range(6)),
+                    gates=[["CZ", [0, 5], {}], ["CNOT", [5, 1], {}], ["M", [0], {}]],
+                    pipeline={"pre": True, "placer": None, "router": ["ShortestPaths", {"seed": sd}], "natives": "default"})
+        out.append(("line6", spec))
     return out
 
 
